@@ -144,6 +144,13 @@ def cases(tier, seed):
         base = {'N': N, 'R': R, 'patterns': [[list(p) for p in pk] for pk in pats]}
         cs.append({'scen': 'tt_round', 's': dict(base, prelude='round_set_core', set_core=k)})
         cs.append({'scen': 'tt_round', 's': dict(base, prelude='round')})
+    # complex cores whose unfolding has columns with u^T u = 1 but u^H u != 1 within reach of the solver (phases 1 and i in one column):
+    # any shortcut that recognises isometries must use the Hermitian product
+    for N, R, pats in [([4, 2], [1, 1, 1], [[[0, 0, 0], [0, 1, 0], [0, 2, 0], [0, 3, 0]], [[0, 0, 0], [0, 1, 0]]]),
+                       ([4, 2, 2], [1, 1, 2, 1], [[[0, 0, 0], [0, 1, 0], [0, 2, 0], [0, 3, 0]], [[0, 0, 0], [0, 1, 1]], [[0, 0, 0], [1, 1, 0]]]),
+                       ([4, 3], [1, 2, 1], [[[0, 0, 0], [0, 1, 0], [0, 2, 0], [0, 3, 0]], [[0, 0, 0], [0, 1, 0], [1, 2, 0]]])]:
+        cs.append({'scen': 'tt_round', 's': {'N': N, 'R': R, 'patterns': pats, 'dtype': 'complex128'}})
+        cs.append({'scen': 'tt_round', 's': {'N': N, 'R': R, 'patterns': pats, 'dtype': 'complex128', 'eps': 'default'}})
     # complex128 copies of a sample (symbolic positive moduli with fixed rational unit phases; arbitrary complex entries for the rank-1 'general' cases)
     from .C03 import _pick
     pool = [c for c in cs if 'dtype' not in c['s']]
